@@ -131,11 +131,6 @@ impl Commitment {
     { unimplemented!() }
 }
 // ---- other external codecs used by the V4 binary slate (opaque; total; never grow the input)
-pub struct RangeProof { pub p: u8 }
-impl Clone for RangeProof { #[verifier::external_body] fn clone(&self) -> (r: Self) ensures r == *self { unimplemented!() } }
-impl Copy for RangeProof {}
-#[derive(Clone, Copy, PartialEq, Eq, Structural)]
-pub enum OutputFeatures { Plain, Coinbase }
 impl ExtCodec for RangeProof { uninterp spec fn enc(&self) -> Seq<u8>; }
 impl ExtCodec for OutputFeatures { uninterp spec fn enc(&self) -> Seq<u8>; }
 impl RangeProof {
